@@ -29,6 +29,7 @@ func init() {
 			Search{Sc: Stop{Variant: "base"}, Depth: 4 + d},
 			Search{Sc: Rewards{Fraction: "0.75", Period: 2}, Depth: 4 + d},
 			Search{Sc: Infraction{Variant: "base"}, Depth: 3 + d},
+			Search{Sc: Infraction{Variant: "staggered"}, Depth: 3 + d},
 		)
 		us = append(us, c19Extra(tier)...)
 		// last: it takes whatever budget the other units leave
